@@ -10,7 +10,9 @@ Local Open Scope Z_scope.
 Definition day := Z.
 Definition time := Z.                       (* milliseconds since 1970-01-01T00:00 UTC *)
 Definition DAYMS : Z := 86400000.
-Definition day_of (t : time) : day := t / DAYMS.
+(* calendar day of an instant in a zone [off] milliseconds east of UTC (QDate::currentDate(),
+   QDateTime::date() and QFileInfo::lastModified().date() are LOCAL dates) *)
+Definition day_at (off : Z) (t : time) : day := (t + off) / DAYMS.
 (* the model's clock saturates at 9999-12-31T23:59:59.999: beyond it QDate::toString("yyyy") has
    five digits and the sink's own name patterns (\d{4}) no longer recognise its files *)
 Definition MAXDAY : Z := 2932896.
@@ -150,7 +152,8 @@ Record rfile := {
 Record ffile := { xname : str; xbytes : str; xmt : time }.   (* any other file *)
 
 Record cfg := { cL : Z; cN : Z; startup : bool; daily : bool; compress : bool; cgran : gran;
-                cbase : str; csuffix : str }.
+                cbase : str; csuffix : str;
+                ctz : Z  (* the process's time zone: minutes east of UTC, taken within +-24 h *) }.
 
 Record world := {
   gone : list rfile;      (* ghost: files removed by retention, in removal order *)
@@ -166,6 +169,8 @@ Section Model.
 Variable sh : shape.
 Variable c : cfg.
 
+Definition tz_ms : Z := 60000 * Z.max (-1440) (Z.min 1440 (ctz c)).
+Definition day_of (t : time) : day := day_at tz_ms t.
 Definition sfx : str := match csuffix c with [] => [] | _ => DOT ++ csuffix c end.
 Definition active_name : str := cbase c ++ sfx.
 Definition render (f : rfile) : str :=
